@@ -92,7 +92,7 @@ def krylov_exp_impl(
             # product is reused by the next iteration if the confirmation fails.
             w_next = op(lanczos_vectors[-1])
             err2 = abs(expd[j + 2, 0] * w_next.norm())
-            confirmed = err1 if err1 < err2 else (err1 * err2 / (err1 - err2))
+            confirmed = err2 if err1 < err2 else (err1 * err2 / (err1 - err2))
             if not confirmed < 3 * exp_tolerance:
                 err = confirmed
 
